@@ -49,8 +49,8 @@ func DecodeHeader(b []byte) (Header, error) {
 
 // PHIT is EFI_HOB_HANDOFF_INFO_TABLE.
 type PHIT struct {
-	Header                                                       Header
-	Version, BootMode                                            uint32
+	Header                                                     Header
+	Version, BootMode                                          uint32
 	MemoryTop, MemoryBottom, FreeTop, FreeBottom, EndOfHobList uint64
 }
 
